@@ -43,44 +43,61 @@ Proof.
       split; [constructor; [unfold is_full; rewrite E; reflexivity | exact Fs] |]. split; assumption.
 Qed.
 
-(* precond_safe, spawn side: qthread_spawn hands the task to a ready queue only if the check saw every
-   precondition word full; otherwise the task is parked on a word that is empty now *)
-Theorem spawn_safe s t k pcs s' evs :
-  step s t (GSpawn k pcs) = (s', evs) -> In (Enq k) evs ->
-  Forall (fun a => is_full (st_febs s) a = true) pcs /\ lookup k (st_pre s') = Some [].
+Lemma firstn_consumed {A} (seen rem' : list A) :
+  firstn (length (seen ++ rem') - length rem') (seen ++ rem') = seen.
 Proof.
-  unfold step. destruct (is_blocked s t); [intros H; inversion H; subst; intros [H1|[]]; discriminate|].
-  destruct (is_blocked s k || has_key k (st_pre s) || N.eqb k t); [intros H; inversion H; subst; intros [H1|[]]; discriminate|].
-  unfold check_preconds. simpl. rewrite lookup_update_eq.
-  destruct (check_walk (st_febs s) k (rev pcs)) as [febs' rem'] eqn:E. intros H. inversion H; subst. clear H.
-  destruct (check_walk_sound _ _ _ _ _ E) as (seen & Hs & Fs & _ & _).
-  destruct rem' as [|a rem']; simpl; [|intros [H|[]]; discriminate].
-  intros _. rewrite app_nil_r in Hs. subst seen. split.
-  - rewrite Forall_forall in *. intros a Ha. apply Fs. apply in_rev in Ha. exact Ha.
-  - rewrite lookup_update_eq. reflexivity.
+  rewrite app_length, Nat.add_sub, firstn_app, Nat.sub_diag, firstn_all. simpl. apply app_nil_r.
 Qed.
 
-(* precond_safe / precond_once, launch side: the re-check performed for a batched task emits Enq only when the
-   remaining list became empty, having consumed only words that are full at that moment; a task whose check fails is
-   parked on exactly one word, which is empty at that moment (precond_live: never parked on a full word) *)
+Definition info_of (s : state) (k : N) : pinfo := match lookup k (st_pre s) with Some i => i | None => no_pinfo end.
+
+(* precond_safe / precond_live at one check (spawn or re-check): progress only over words that are full now (these are
+   what the history variable p_seen records); enqueue (p_enq + 1) iff nothing remains; otherwise parked on one word that
+   is empty now; full bits, memory and the other tasks' entries untouched *)
 Theorem recheck_safe s k s' ok :
   check_preconds s k = (s', ok) ->
-  exists rem seen rem', lookup k (st_pre s) = rem /\ (match rem with Some l => l | None => [] end) = seen ++ rem' /\
-    Forall (fun a => is_full (st_febs s) a = true) seen /\
-    lookup k (st_pre s') = Some rem' /\ ok = is_nil rem' /\
+  exists seen rem' info',
+    p_rem (info_of s k) = seen ++ rem' /\ Forall (fun a => is_full (st_febs s) a = true) seen /\
+    lookup k (st_pre s') = Some info' /\ p_all info' = p_all (info_of s k) /\ p_rem info' = rem' /\
+    p_seen info' = p_seen (info_of s k) ++ seen /\
+    p_enq info' = (if ok then S (p_enq (info_of s k)) else p_enq (info_of s k)) /\ ok = is_nil rem' /\
+    (forall k', k' <> k -> lookup k' (st_pre s') = lookup k' (st_pre s)) /\
     (forall b, is_full (st_febs s') b = is_full (st_febs s) b) /\ st_mem s' = st_mem s /\
     match rem' with
     | [] => st_febs s' = st_febs s
     | a :: _ => is_full (st_febs s) a = false /\
                 exists r, lookup a (st_febs s) = Some r /\
-                  lookup a (st_febs s') = Some (mkRec false (r_EFQ r) (r_FEQ r) (mkW k None DNull true :: r_FFQ r) (r_FFWQ r))
+                  lookup a (st_febs s') = Some (mkRec false (r_EFQ r) (r_FEQ r) (mkW k None DNull true :: r_FFQ r) (r_FFWQ r)) /\
+                  (forall b, b <> a -> lookup b (st_febs s') = lookup b (st_febs s))
     end.
 Proof.
-  unfold check_preconds. destruct (check_walk (st_febs s) k _) as [febs' rem'] eqn:E. intros H. inversion H; subst. clear H.
+  unfold check_preconds. fold (info_of s k).
+  destruct (check_walk (st_febs s) k (p_rem (info_of s k))) as [febs' rem'] eqn:E. intros H. inversion H; subst. clear H.
   destruct (check_walk_sound _ _ _ _ _ E) as (seen & Hs & Fs & Hf & Hm).
-  eexists _, seen, rem'. split; [reflexivity|]. split; [exact Hs|]. split; [exact Fs|]. simpl.
-  split; [apply lookup_update_eq|]. split; [reflexivity|]. split; [exact Hf|]. split; [reflexivity|].
-  destruct rem' as [|a r']; [exact Hm|]. destruct Hm as (Hfa & r & H1 & H2 & _). split; [exact Hfa|]. exists r. split; assumption.
+  exists seen, rem'. eexists. split; [exact Hs|]. split; [exact Fs|]. simpl.
+  split; [apply lookup_update_eq|]. simpl. split; [reflexivity|]. split; [reflexivity|].
+  split; [rewrite Hs, firstn_consumed; reflexivity|]. split; [reflexivity|]. split; [reflexivity|].
+  split; [intros k' Hk; apply lookup_update_neq; congruence|]. split; [exact Hf|]. split; [reflexivity|].
+  destruct rem' as [|a r']; exact Hm.
+Qed.
+
+(* precond_safe, spawn side: qthread_spawn hands the task to a ready queue only if the check saw every
+   precondition word full *)
+Theorem spawn_safe s t k pcs s' evs :
+  step s t (GSpawn k pcs) = (s', evs) -> In (Enq k) evs ->
+  Forall (fun a => is_full (st_febs s) a = true) pcs /\ p_rem (info_of s' k) = [].
+Proof.
+  unfold step. destruct (is_blocked s t); [intros H; inversion H; subst; intros [H1|[]]; discriminate|].
+  destruct (is_blocked s k || has_key k (st_pre s) || N.eqb k t); [intros H; inversion H; subst; intros [H1|[]]; discriminate|].
+  set (s1 := mkSt (st_mem s) (st_febs s) (update k (mkP (rev pcs) (rev pcs) [] 0) (st_pre s))).
+  destruct (check_preconds s1 k) as [s2 ok] eqn:E. intros H. inversion H; subst. clear H.
+  destruct (recheck_safe _ _ _ _ E) as (seen & rem' & info' & Hs & Fs & Hl & _ & Hr & _ & _ & Hok & _).
+  assert (Hi : info_of s1 k = mkP (rev pcs) (rev pcs) [] 0) by (unfold info_of, s1; simpl; rewrite lookup_update_eq; reflexivity).
+  rewrite Hi in Hs. simpl in Hs.
+  destruct ok; simpl; [|intros [H|[]]; discriminate]. intros _.
+  destruct rem'; [|discriminate]. rewrite app_nil_r in Hs. subst seen. split.
+  - rewrite Forall_forall in *. intros a Ha. apply (Fs a). apply in_rev in Ha. exact Ha.
+  - unfold info_of. rewrite Hl. exact Hr.
 Qed.
 
 (* re-checks never change a full bit or a memory word: they only park *)
@@ -88,7 +105,7 @@ Lemma launch_full b : forall s a, is_full (st_febs (fst (launch s b))) a = is_fu
 Proof.
   induction b as [|k b IH]; intros s a; simpl; [reflexivity|].
   destruct (check_preconds s k) as [s1 ok] eqn:E1.
-  destruct (recheck_safe _ _ _ _ E1) as (_ & _ & _ & _ & _ & _ & _ & _ & Hf1 & _).
+  destruct (recheck_safe _ _ _ _ E1) as (_ & _ & _ & _ & _ & _ & _ & _ & _ & _ & _ & _ & Hf1 & _).
   specialize (IH s1 a). destruct (launch s1 b) as [s2 ev]. simpl in *. rewrite IH. apply Hf1.
 Qed.
 
